@@ -1190,7 +1190,7 @@ def drop_entries(tier):
                                       "vcheck!(dropped(0) == 0 && dropped(1) == 1, M_DROP_COUNT);",
                                       "{ let mut g = m.lock(key()); g.val = v0; }",
                                       "let d = m.into_inner();", "vcheck!(d.val == v0, M_DATA);"], 2)
-        add("drop_%s_accept_refs" % kind, ["let m = md(0, 10); let r2 = rd(1, 11);",
+        add("drop_%s_accept_refs_uo" % kind, ["let m = md(0, 10); let r2 = rd(1, 11);",
                                            "let c = %s((&m, &r2, md(2, 12))).unwrap();" % c] + write3 + [
             "drop(c);", "vcheck!(dropped(0) == 0 && dropped(1) == 0 && dropped(2) == 1, M_DROP_COUNT);",
             "vcheck!(m.into_inner().val == v0 && r2.into_inner().val == v1, M_DATA);"], 3)
@@ -1243,4 +1243,118 @@ def gen_drop(tier):
     for nm, txt in drop_entries(tier):
         names.append(nm)
         out.append(txt)
+    return "\n".join(out), names
+
+
+# ------------------------------------------------------------------------------------------
+# C17: non-acquiring operations never wait and never disturb holds
+# ------------------------------------------------------------------------------------------
+NA_CHECK = ("vcheck!(w().blocking_ops.get() == b0 && w().wait_events.get() == 0, M_BLOCKING_IN_TRY); "
+            "vcheck!(w().snapshot() == snap0, M_STATE_CHANGED); vcheck!(w().bad_release.get() == 0, M_BAD_RELEASE);")
+NA_NOOPS = "vcheck!(w().ops.get() == ops0, M_BLOCKING_IN_TRY);"
+
+
+def na_ops(shape, inside_hold):
+    """(rust statement, touches raw locks?) list of non-acquiring operations on `coll` and its members"""
+    ops = []
+    kind = shape.kind
+    obj = "coll" if kind not in ("single_m", "single_r") else "*coll"
+    ops.append(("vcheck!(eng::debug_fmt(&%s), M_OTHER);" % obj, True))
+    for (i, k, ref) in shape.leaves:
+        if ref.startswith("&") or ref == "raw6":
+            continue
+        ops.append(("vcheck!(eng::debug_fmt(%s), M_OTHER);" % ref, True))
+    if kind in ("boxed", "retry", "ref"):
+        ops.append(("let _c = coll.child();", False))
+        ops.append(("vcheck!(eng::debug_fmt(coll.child()), M_OTHER);", True))
+    if kind == "pois":
+        ops.append(("let _p = coll.is_poisoned();", False))
+        ops.append(("coll.clear_poison();", False))
+    # constructors (including the duplicate check) over the same, possibly held, locks
+    refs = [ref for (i, k, ref) in shape.leaves if not (ref.startswith("&") or ref == "raw6")]
+    if len(refs) >= 2 and kind in ("boxed", "retry", "ref"):
+        tup = "(" + ", ".join(refs) + ")"
+        ops.append(("{ let t2 = %s; let c2 = BoxedLockCollection::try_new(t2); vcheck!(c2.is_some(), M_DUP_VERDICT); }" % tup, False))
+        ops.append(("{ let t2 = %s; let c2 = RetryingLockCollection::try_new(t2); vcheck!(c2.is_some(), M_DUP_VERDICT); }" % tup, False))
+        ops.append(("{ let t2 = %s; let c2 = RefLockCollection::try_new(&t2); vcheck!(c2.is_some(), M_DUP_VERDICT); }" % tup, False))
+        ops.append(("{ let t2 = (%s, %s); let c2 = BoxedLockCollection::try_new(t2); vcheck!(c2.is_none(), M_DUP_VERDICT); }" % (refs[0], refs[0]), False))
+    return ops
+
+
+def na_entry(shape, variant):
+    L = ["w().reset(false);"] + shape.setup
+    if variant == "env":
+        L += pre_stmts(shape)
+    L += shape.build
+    owned = shape.build[-1].startswith("let coll = ") and ("::new(" in shape.build[-1]) and shape.kind in ("owned", "retry", "boxed", "pois")
+    if owned and variant == "env":
+        L[-1] = L[-1].replace("let coll", "let mut coll", 1)
+    ops = na_ops(shape, variant != "env")
+    body = []
+    for stmt, touches in ops:
+        body.append("let ops0 = w().ops.get();")
+        body.append(stmt)
+        if not touches:
+            body.append(NA_NOOPS)
+        body.append(NA_CHECK)
+    if variant == "env":
+        L.append("let snap0 = w().snapshot(); let b0 = w().blocking_ops.get();")
+        L += body
+        if owned:
+            # consuming / exclusive accessors while the members are held by other threads
+            L.append("let ops0 = w().ops.get();")
+            if shape.kind in ("owned", "retry"):
+                L.append("{ let _gm = coll.get_mut(); }")
+                L.append(NA_NOOPS + " " + NA_CHECK)
+                L.append("{ let _cm = coll.child_mut(); }")
+                L.append(NA_NOOPS + " " + NA_CHECK)
+            if shape.kind == "pois":
+                L.append("{ let _gm = coll.get_mut(); }")
+                L.append("{ let _cm = coll.child_mut(); }")
+                L.append(NA_NOOPS + " " + NA_CHECK)
+            if any_bool_stmt():
+                L.append("if any_bool(T_MISC | 3) { let inner = coll.into_inner(); %s %s core::mem::forget(inner); } else { let ch = coll.into_child(); %s %s core::mem::forget(ch); }"
+                         % (NA_NOOPS, NA_CHECK, NA_NOOPS, NA_CHECK))
+    elif variant == "guard":
+        acq = "lock" if shape.kind != "single_r" else "write"
+        L.append("let g = %s;" % unwrap_pois(shape, "coll.%s(key())" % acq))
+        L.append("let snap0 = w().snapshot(); let b0 = w().blocking_ops.get();")
+        L.append("let ops0 = w().ops.get();")
+        L.append("vcheck!(eng::debug_fmt(&g), M_OTHER);")
+        L.append(NA_NOOPS + " " + NA_CHECK)
+        L += body
+        L.append("drop(g);")
+        if shape.sharable:
+            L.append("let g = %s;" % unwrap_pois(shape, "coll.read(key())"))
+            L.append("let snap0 = w().snapshot(); let b0 = w().blocking_ops.get();")
+            L.append("vcheck!(eng::debug_fmt(&g), M_OTHER);")
+            L += body
+            L.append("drop(g);")
+    else:
+        sapi = {"single_m": "scoped_lock", "single_r": "scoped_write"}.get(shape.kind, "scoped_lock")
+        L.append("let b0 = w().blocking_ops.get() + 1 - 1;")
+        inner = ["let snap0 = w().snapshot(); let b0 = w().blocking_ops.get();"] + body
+        L.append("coll.%s(key(), |_d| {" % sapi)
+        L += ["\t" + x for x in inner]
+        L.append("});")
+    L.append("vcheck!(!w().held_any(), M_HELD_AFTER_ERR);")
+    L.append("vreach!(3);")
+    nm = "na_%s__%s" % (shape.name, variant)
+    return nm, fn_wrap(nm, L)
+
+
+def any_bool_stmt():
+    return True
+
+
+def gen_nonacq(tier):
+    out = [HEADER]
+    names = []
+    for sh in all_shapes(tier):
+        for variant in ("env", "guard", "scoped"):
+            if sh.kind == "ref" and False:
+                continue
+            nm, txt = na_entry(sh, variant)
+            names.append(nm)
+            out.append(txt)
     return "\n".join(out), names
